@@ -93,7 +93,9 @@ def _strip_not(c):
             return c, neg
 
 
+ARRAY_METHODS = ("min", "max", "ravel", "reshape")
 POS_NEG = {v: k for k, v in NEG_CMP.items()}
+MIRROR = {"==": "==", "!=": "!=", "<": ">", ">": "<", "<=": ">=", ">=": "<=", "is": "is", "isnot": "isnot"}
 
 
 def literal(c, val):
@@ -262,7 +264,12 @@ class Evaluator:
         parts = []
         for op, c in zip(n.ops, n.comparators):
             r = self.ev(c, st)
-            parts.append(("cmp", CMP[type(op)], left, r))
+            o = CMP[type(op)]
+            if len(n.ops) == 1 and o in MIRROR and is_const(left) and not is_const(r):
+                left, r, o = r, left, MIRROR[o]         # `1 == len(x)` is recorded as `len(x) == 1`
+            elif len(n.ops) == 1 and o in ("<", "<=") and is_const(left) == is_const(r):
+                left, r, o = r, left, MIRROR[o]         # between two non-constants, `a < b` is recorded as `b > a`
+            parts.append(("cmp", o, left, r))
             left = r
         return parts[0] if len(parts) == 1 else ("boolop", "And", tuple(parts))
 
@@ -377,13 +384,20 @@ class Evaluator:
         # "...{}".format(a, b)
         if f[0] == "attr" and f[2] == "format" and is_const(f[1]) and isinstance(f[1][1], str) and not kws:
             return ("fmt", f[1], args)
+        # x.min() / x.max() / x.ravel() / x.reshape(s) are recorded as the equivalent numpy function calls, so that the method and
+        # the function spelling of the same array operation are one term
+        if f[0] == "attr" and f[2] in ARRAY_METHODS and f[1][0] not in ("glob",) and not (f[2] in ("min", "max", "ravel") and args):
+            f, args = ("glob", "numpy." + f[2]), (f[1],) + tuple(args)
+            if f[1] == "numpy.reshape" and len(args) > 2:
+                args = (args[0], ("tuple", tuple(args[1:])))
         # np.array(region).reshape((len(region) // 2, 2)) -> pairs of a known-arity tuple
-        if f[0] == "attr" and f[2] == "reshape" and f[1][0] == "call" and f[1][1] == ("glob", "numpy.array") and len(f[1][2]) == 1 and len(args) == 1:
-            x = self.expand(f[1][2][0])
-            shp = args[0]
+        if f == ("glob", "numpy.reshape") and len(args) == 2 and not kws and args[0][0] == "call" and args[0][1] == ("glob", "numpy.array") and len(args[0][2]) == 1:
+            src = args[0]
+            x = self.expand(src[2][0])
+            shp = args[1]
             if plain_seq(x) and len(x[1]) % 2 == 0 and shp[0] == "tuple" and len(shp[1]) == 2 and shp[1][1] == const(2):
                 n0 = shp[1][0]
-                half = ("binop", "//", ("call", ("glob", "builtins.len"), (f[1][2][0],), (), 0), const(2))
+                half = ("binop", "//", ("call", ("glob", "builtins.len"), (src[2][0],), (), 0), const(2))
                 if n0 == const(len(x[1]) // 2) or canon(n0) == canon(half):
                     return ("tuple", tuple(("tuple", x[1][i:i + 2]) for i in range(0, len(x[1]), 2)))
         names = contracts.package_signature(self.pkg, f, self.fn.cls)
